@@ -590,6 +590,12 @@ func init() {
 				hs := []int{4, 5, 6, 8, 12}
 				if !ctx.Quick {
 					hs = []int{4, 5, 6, 7, 8, 9, 10, 11, 12}
+					widths = nil
+					for w := 1; w <= 140; w++ {
+						if w <= 30 || w%9 <= 1 || w == 63 || w == 85 || w == 135 || w == 140 {
+							widths = append(widths, w)
+						}
+					}
 				}
 				corr := []string{"none", "leaf", "sibling", "indexbit", "capbit", "capsel", "capunsel", "swaplr", "wrongslot"}
 				for _, h := range hs {
@@ -601,6 +607,9 @@ func init() {
 							continue // tree construction cost
 						}
 						cs = append(cs, fw.Case{ID: fmt.Sprintf("h%d/w%d", h, w), Kind: "tree", P: map[string]any{"h": h, "w": w, "corr": corr}})
+						if !ctx.Quick && h <= 9 {
+							cs = append(cs, fw.Case{ID: fmt.Sprintf("h%d/w%d/rep1", h, w), Kind: "tree", P: map[string]any{"h": h, "w": w, "corr": corr}})
+						}
 					}
 				}
 				return cs
